@@ -10,7 +10,7 @@ for d in seeded/C*/*/; do
   id=$(basename $(dirname $d)); x=$(basename $d)
   if [ $# -gt 0 ] && [[ ! " $* " =~ " $id " ]]; then continue; fi
   if [ -n "$(git -C /repo status --porcelain)" ]; then echo "/repo not clean"; exit 2; fi
-  if ! git -C /repo apply $d/patch.diff 2>/dev/null; then echo "| $id/$x | NO | - | - | - |" >> $tmp; continue; fi
+  if ! git -C /repo apply "$(pwd)/$d/patch.diff" 2>/dev/null; then echo "| $id/$x | NO | - | - | - |" >> $tmp; continue; fi
   res=$(VERIF_SEED=${VERIF_SEED:-1} ./pv check $id --tier quick 2>&1); rc=$?
   git -C /repo checkout -- .
   v=$(echo "$res" | grep -m1 VIOLATION | sed 's/.*# //; s/ model=.*//' | tr '|' '/')
